@@ -67,6 +67,15 @@ def component_of(p):
     return p["specs"][0][0]
 
 
+def cost(p):
+    """scheduling hint only: Berlekamp-Massey on the long BCH codes dominates"""
+    fam, cfg, prm = p["specs"][0]
+    if fam == "bch":
+        mu = 6 if ("mu=6" in cfg or "(63," in cfg) else 5 if ("mu=5" in cfg or "(31," in cfg) else int(prm.get("mu", 4))
+        return 10 ** mu * len(p["specs"])
+    return len(p["specs"])
+
+
 def execute(p, res):
     for spec in p["specs"]:
         check(spec, p["tier"], res)
@@ -186,6 +195,9 @@ def check(spec, tier, res):
                 cap = 400 if q else 1500      # these decoders loop in Python (2-10 ms per word)
                 if len(pats) > cap:
                     pats = pats[:cap // 2] + pats[-cap // 2:]
+            if dname in ("bm", "reed") and not exhaustive:
+                wcap = 1500 if q else 6000    # total words per (code, decoder)
+                cw_sel = cw_sel[:max(3, wcap // max(1, len(pats)))]
             words, truth = [], {}
             for m in cw_sel:
                 for e in pats:
